@@ -25,7 +25,9 @@ func verifCtx() *Context {
 		c.MaxExponent = MaxExponent
 	}
 	verifAssume(int64(c.Precision) <= int64(c.MaxExponent))
-	c.Traps = Condition(verifNondetBits32("traps"))
+	if verifParamStr("traps") == "sym" {
+		c.Traps = Condition(verifNondetBits32("traps"))
+	}
 	return c
 }
 
@@ -82,6 +84,29 @@ func verifModeName(c *Context) string {
 // (neg ? -1 : 1) * N * 10^e in context c (N >= 0), for the returned (d, res).
 // It returns: val (C01: value/sign/infinity), flg (C02: conditions), fit (C07).
 func verifSpecResult(c *Context, neg bool, N *BigInt, e int64, d *Decimal, res Condition) (val, flg, fit bool) {
+	return verifSpecResultQ(c, neg, N, bigOne, e, d, res)
+}
+
+// verifFit is the C07 post-condition on a result.
+func verifFit(c *Context, d *Decimal) bool {
+	P := int64(c.Precision)
+	emax := int64(c.MaxExponent)
+	etiny := int64(c.MinExponent) - P + 1
+	if d.Form != Finite {
+		return d.Form == Infinite || d.Form == NaN
+	}
+	ndr := verifNumDigits(&d.Coeff)
+	fit := d.Coeff.Sign() >= 0
+	if P > 0 {
+		fit = verifAnd(fit, ndr <= P)
+	}
+	fit = verifAnd(fit, int64(d.Exponent)+ndr-1 <= emax)
+	fit = verifAnd(fit, verifOr(d.Coeff.Sign() == 0, int64(d.Exponent) >= etiny))
+	return fit
+}
+
+// verifSpecResultQ is the general form: exact value (neg ? -1 : 1) * N/D * 10^e, N >= 0, D >= 1.
+func verifSpecResultQ(c *Context, neg bool, N, D *BigInt, e int64, d *Decimal, res Condition) (val, flg, fit bool) {
 	P := int64(c.Precision)
 	emin, emax := int64(c.MinExponent), int64(c.MaxExponent)
 	etiny := emin - P + 1
@@ -94,19 +119,7 @@ func verifSpecResult(c *Context, neg bool, N *BigInt, e int64, d *Decimal, res C
 		return
 	}
 	noBad := res&^(Overflow|Underflow|Inexact|Subnormal|Rounded|Clamped) == 0
-
-	// ---- C07 fit (finite results) ----
-	if d.Form == Finite {
-		ndr := verifNumDigits(&d.Coeff)
-		fit = d.Coeff.Sign() >= 0
-		if P > 0 {
-			fit = verifAnd(fit, ndr <= P)
-		}
-		fit = verifAnd(fit, int64(d.Exponent)+ndr-1 <= emax)
-		fit = verifAnd(fit, verifOr(d.Coeff.Sign() == 0, int64(d.Exponent) >= etiny))
-	} else {
-		fit = d.Form == Infinite
-	}
+	fit = verifFit(c, d)
 
 	if N.Sign() == 0 {
 		// exact zero: a zero of the same sign; only the exponent may be clamped
@@ -115,48 +128,80 @@ func verifSpecResult(c *Context, neg bool, N *BigInt, e int64, d *Decimal, res C
 		return
 	}
 
+	// adjusted exponent of the exact value: 10^adj <= N/D*10^e < 10^(adj+1)
 	nd := verifNumDigits(N)
-	adj := e + nd - 1
-	subn := adj < emin
-	var s int64 // number of low digits of N below the rounding quantum
-	if subn {
-		if e < etiny {
-			if etiny-e > nd {
-				// |v| is below a tenth of the quantum 10^etiny: the correctly rounded
-				// result is 0 or one quantum, whatever the exact distance.
-				return verifSpecTiny(c, neg, d, res, noBad, fit)
-			}
-			s = verifConcretize(etiny - e)
+	lead := nd - 1 // adj - e
+	if D != bigOne {
+		ndD := verifNumDigits(D)
+		lead = nd - ndD
+		var l, r BigInt
+		if lead >= 0 {
+			verifPow10(&r, lead)
+			r.Mul(&r, D)
+			l.Set(N)
+		} else {
+			verifPow10(&l, -lead)
+			l.Mul(&l, N)
+			r.Set(D)
 		}
-	} else if P > 0 && nd > P {
-		s = nd - P
+		if l.Cmp(&r) < 0 {
+			lead--
+		}
 	}
-	var T, tmp BigInt
-	verifPow10(&T, s)
+	adj := e + lead
+	subn := adj < emin
+	// s = q - e, where 10^q is the rounding quantum (may be negative for quotients)
+	var s int64
+	limited := false // is there a quantum at all (P == 0 and not subnormal: exact result required)
+	if subn {
+		if adj < etiny-1 {
+			// |v| is below a tenth of the quantum 10^etiny: the correctly rounded
+			// result is 0 or one quantum, whatever the exact distance.
+			return verifSpecTiny(c, neg, d, res, noBad, fit)
+		}
+		s = verifConcretize(etiny - e)
+		limited = true
+	} else if P > 0 {
+		s = lead - P + 1
+		limited = true
+	}
+	if D == bigOne && s < 0 {
+		s = 0 // the exact value is representable with its own exponent
+	}
+	var X0, H0, tmp BigInt
+	if s >= 0 {
+		verifPow10(&tmp, s)
+		X0.Set(N)
+		H0.Mul(D, &tmp)
+	} else {
+		verifPow10(&tmp, -s)
+		X0.Mul(N, &tmp)
+		H0.Set(D)
+	}
 
 	// overflow threshold: the rounded magnitude reaches 10^(emax+1)
 	thr := false
-	if !subn && P > 0 && s > 0 {
-		var top, topT, twoN, twoTop BigInt
+	if !subn && P > 0 {
+		var top, topH, twoX, twoTop BigInt
 		verifPow10(&top, P)
 		top.Sub(&top, bigOne) // 10^P - 1
-		topT.Mul(&top, &T)
-		twoN.Add(N, N)
-		twoTop.Add(&topT, &topT)
-		twoTop.Add(&twoTop, &T) // (2*top+1)*T
+		topH.Mul(&top, &H0)
+		twoX.Add(&X0, &X0)
+		twoTop.Add(&topH, &topH)
+		twoTop.Add(&twoTop, &H0) // (2*top+1)*H0
 		switch mode {
 		case "down", "05up":
 			thr = false
 		case "up":
-			thr = N.Cmp(&topT) > 0
+			thr = X0.Cmp(&topH) > 0
 		case "half_up", "half_even":
-			thr = twoN.Cmp(&twoTop) >= 0
+			thr = twoX.Cmp(&twoTop) >= 0
 		case "half_down":
-			thr = twoN.Cmp(&twoTop) > 0
+			thr = twoX.Cmp(&twoTop) > 0
 		case "ceiling":
-			thr = verifAnd(!neg, N.Cmp(&topT) > 0)
+			thr = verifAnd(!neg, X0.Cmp(&topH) > 0)
 		case "floor":
-			thr = verifAnd(neg, N.Cmp(&topT) > 0)
+			thr = verifAnd(neg, X0.Cmp(&topH) > 0)
 		}
 	}
 	ovf := verifOr(adj > emax, verifAnd(adj == emax, thr))
@@ -179,9 +224,9 @@ func verifSpecResult(c *Context, neg bool, N *BigInt, e int64, d *Decimal, res C
 		verifPow10(&U, -k)
 		A.Set(&d.Coeff)
 	}
-	X.Mul(N, &U)
-	Y.Mul(&A, &T)
-	H.Mul(&U, &T)
+	X.Mul(&X0, &U)
+	Y.Mul(&A, &H0)
+	H.Mul(&H0, &U)
 	var r1 BigInt
 	r1.Rem(&A, &U)
 	multiple := r1.Sign() == 0
@@ -193,7 +238,7 @@ func verifSpecResult(c *Context, neg bool, N *BigInt, e int64, d *Decimal, res C
 	floorOK := verifAnd(Y.Cmp(&X) <= 0, X.Cmp(&YpH) < 0)
 	ceilOK := verifAnd(YmH.Cmp(&X) < 0, X.Cmp(&Y) <= 0)
 	var okMode bool
-	if s == 0 {
+	if !limited {
 		okMode = exact
 	} else {
 		switch mode {
